@@ -99,7 +99,12 @@ def parse_dec(block):
     return None
 
 
-def preemptions(dec):
+def preemptions(dec, spurious=False):
+    """cost of a decision list: preemptions (the current thread could go on and another move was taken);
+    with spurious wake-ups on offer every scheduling decision other than the default counts (a spurious
+    wake-up can be repeated for ever, so it has to be paid for)"""
+    if spurious:
+        return sum(1 for (k, n, c, cur) in dec if k == "s" and c != 0)
     return sum(1 for (k, n, c, cur) in dec if k == "s" and cur and c != 0)
 
 
@@ -449,8 +454,9 @@ class Runner:
 
     # ---- systematic schedules
     def explore(self, exe, case, bound, limit):
-        """all schedules of `case` with at most `bound` preemptions (decision lists taken from the
-        implementation's own `# dec` line), breadth first, at most `limit` runs.  Returns (runs, complete)."""
+        """all schedules of `case` with at most `bound` preemptions (for a case with spurious wake-ups: at most
+        `bound` non-default scheduling decisions), the decision lists taken from the implementation's own
+        `# dec` line; breadth first, at most `limit` runs.  Returns (runs, complete)."""
         seen = set()
         frontier = [[]]
         runs = 0
@@ -487,7 +493,7 @@ class Runner:
                             if alt == c:
                                 continue
                             cand = choices[:pos] + [alt]
-                            pre = preemptions(dec[:pos]) + (1 if (k == "s" and cur and alt != 0) else 0)
+                            pre = preemptions(dec[:pos], case.spurious) + (1 if (k == "s" and (cur or case.spurious) and alt != 0) else 0)
                             if pre <= bound:
                                 frontier.append(cand)
                 if self.ctx.stop():
